@@ -333,7 +333,7 @@ def RADIANS(number):
     number = utils.parse_number(number)
     if isinstance(number, error.XLError):
         return number
-    return number * math.pi / 180
+    return math.radians(number)  # number * math.pi overflows for numbers whose radians are still a double
 
 
 @dispatcher.register_for('DEGREES')
@@ -341,7 +341,7 @@ def DEGREES(number):
     number = utils.parse_number(number)
     if isinstance(number, error.XLError):
         return number
-    return number * 180 / math.pi
+    return math.degrees(number)  # number * 180 overflows for numbers whose degrees are still a double
 
 
 @dispatcher.register_for('PRODUCT')
